@@ -81,14 +81,20 @@ Impl_ExemptURI(c) ==
 \* via: "target" = the request target carries path+query;
 \*      "xfu"    = reverse-proxy mode, X-Forwarded-Uri carries path+query(+fragment), target is a decoy;
 \*      "decoy"  = reverse-proxy OFF, target carries path+query, X-Forwarded-Uri carries a matching path (must be ignored)
-Vias == {"target", "xfu", "decoy"}
+\*      "noise_get" / "noise_options" = like "target" (reverse-proxy off) plus the override-style headers some proxies and frameworks
+\*                 honour (X-Forwarded-Method, X-HTTP-Method-Override, X-Original-Method naming GET / OPTIONS; X-Original-URL,
+\*                 X-Rewrite-URL, X-Forwarded-Path naming a path the rules exempt): "other headers have no influence"
+\*      "rp_noise_get" / "rp_noise_options" = like "xfu" (reverse-proxy on) plus the method-override headers
+Vias == {"target", "xfu", "decoy", "noise_get", "noise_options", "rp_noise_get", "rp_noise_options"}
+NoiseVias == {"noise_get", "noise_options", "rp_noise_get", "rp_noise_options"}
 Mk(m, p, q, f, rs, pf, v) == [method |-> m, path |-> p, query |-> q, frag |-> f, rules |-> rs, preflight |-> pf, via |-> v]
 
 InScope(c) == /\ (c.frag # <<>> => c.via = "xfu")            \* a fragment cannot travel in a request target
+              /\ (c.via \in NoiseVias => c.query = <<>> /\ c.method \in {"GET", "POST", "OPTIONS"} /\ (Tier = "quick" => Len(c.rules) = 1))
               \* the further methods only matter for the method comparison: plain request targets
               /\ (c.method \in {"HEAD", "PUT", "DELETE"} => c.query = <<>> /\ c.via = "target" /\ ~c.preflight /\ (Tier = "quick" => Len(c.rules) = 1))
               /\ (c.preflight => Len(c.rules) <= 1)           \* keep the product small: preflight x pairs adds nothing
-              /\ (Tier = "quick" => (c.via # "target" => Len(c.rules) = 1 /\ c.rules[1].m \in {"", "GET"} /\ c.method \in {"GET", "POST"}))
+              /\ (Tier = "quick" => (c.via \notin {"target"} \cup NoiseVias => Len(c.rules) = 1 /\ c.rules[1].m \in {"", "GET"} /\ c.method \in {"GET", "POST"}))
               /\ (Tier = "quick" /\ Len(c.rules) = 2 => c.query \in {<<>>, <<"q","x","eq","sl","a">>})
               /\ (Tier = "quick" /\ c.preflight => c.query = <<>> /\ c.via = "target")
 
